@@ -142,7 +142,7 @@ class DetachedServer(ServerBase):
 
             elif msg == RuntimeMessage.CANCEL:
                 request = cast(uuid.UUID, payload)
-                self.handle_cancel_comp_task(request)
+                self.handle_cancel_comp_task(request, conn)
 
             else:
                 raise RuntimeError(f'Unexpected message type: {msg.name}')
@@ -320,6 +320,7 @@ class DetachedServer(ServerBase):
             # This task is unknown to the system
             m = (conn, RuntimeMessage.STATUS, CompilationStatus.UNKNOWN)
             self.outgoing.put(m)
+            return
 
         # Get the mailbox associated with this task.
         mailbox_id = self.tasks[request][0]
@@ -329,9 +330,24 @@ class DetachedServer(ServerBase):
         s = CompilationStatus.DONE if box.ready else CompilationStatus.RUNNING
         self.outgoing.put((conn, RuntimeMessage.STATUS, s))
 
-    def handle_cancel_comp_task(self, request: uuid.UUID) -> None:
+    def handle_cancel_comp_task(
+        self,
+        request: uuid.UUID,
+        conn: Connection | None = None,
+    ) -> None:
         """Cancel a compilation task in the system."""
         _logger.info(f'Cancelling: {request}.')
+
+        # Unknown, finished, already cancelled or someone else's task:
+        # there is nothing to cancel, only acknowledge the request.
+        if (
+            request not in self.tasks
+            or self.tasks[request][0] not in self.mailboxes
+            or (conn is not None and self.tasks[request][1] != conn)
+        ):
+            if conn is not None and not conn.closed:
+                self.outgoing.put((conn, RuntimeMessage.CANCEL, None))
+            return
 
         # Remove task from server data
         mailbox_id, client_conn = self.tasks[request]
